@@ -416,7 +416,7 @@ def unit_validated_character():
 def unit_character_spellings():
     def run(ctx):
         from cutplace import data, errors
-        pool = list(range(33, 127)) + [9, 10, 13, 11, 12, 32, 0xe4, 0x20ac, 0x10ffff]
+        pool = list(range(33, 127)) + [9, 10, 13, 11, 12, 32, 0xa7, 0xe4, 0x20ac, 0x10ffff]
         names = {13: "cr", 12: "ff", 10: "lf", 9: "tab", 11: "vt"}
         def cases():
             for c in pool:
@@ -425,6 +425,7 @@ def unit_character_spellings():
                 yield (c, "decimal", str(c)); yield (c, "hex", hex(c)); yield (c, "HEX", "0X%X" % c)
                 esc = {9: "\\t", 10: "\\n", 13: "\\r", 34: '\\"', 92: "\\\\"}.get(c, ch if c < 0x7f and c >= 32 else "\\u%04x" % c if c <= 0xffff else "\\U%08x" % c)
                 yield (c, "quoted", '"%s"' % esc)
+                if c >= 0x80: yield (c, "quoted literal", '"%s"' % ch); yield (c, "single quoted literal", "'%s'" % ch)
                 if c != 39: yield (c, "single quoted", "'%s'" % (esc if c != 34 else '"'))
                 yield (c, "hex escape in quotes", '"\\x%02x"' % c if c <= 0xff else '"\\u%04x"' % c if c <= 0xffff else '"\\U%08x"' % c)
                 if c in names:
